@@ -171,9 +171,9 @@ Definition oc_addrs (c : ocache) : list ap := opt_list (oc_l4 c) ++ oc_r4 c ++ o
 Definition is_bad (bad : list ap) (a : ap) : bool := existsb (ap_eqb a) bad.
 
 Definition cache_addrs (c : cache) : list ap := flat_map (fun e => oc_addrs (snd e)) c.
-Definition collect_addrs (admit : addr -> bool) (c : cache) (dns bad : list ap) : list ap :=
+Definition collect_addrs (admission : addr -> bool) (c : cache) (dns bad : list ap) : list ap :=
   filter (fun a => negb (is_bad bad a)) (cache_addrs c)
-  ++ filter (fun a => admit (ap_addr a) && negb (is_bad bad a)) dns.
+  ++ filter (fun a => admission (ap_addr a) && negb (is_bad bad a)) dns.
 Definition collect_relays (c : cache) : list addr := flat_map (fun e => oc_relay (snd e)) c.
 
 (* ---- the RemoteList state machine ---- *)
@@ -204,16 +204,16 @@ Inductive rop :=
 | RRebuild (pref : list prefix).                      (* Rebuild / Len / ForEach / CopyAddrs *)
 
 Section Step.
-  (* admit vpnAddrs addr : the shouldAdd callback (fun _ _ => true when nil);
+  (* admission vpnAddrs addr : the shouldAdd callback (fun _ _ => true when nil);
      chk vpn a           : the check callback given to unlockedSetV4/V6 *)
-  Variable admit : list addr -> addr -> bool.
+  Variable admission : list addr -> addr -> bool.
   Variable chk : addr -> ap -> bool.
 
   Definition with_cache (s : rl) (c : cache) : rl :=
     mkRL (rl_vpn s) c (rl_dns s) (rl_bad s) (rl_addrs s) (rl_relays s) true.
 
   Definition rebuild (pref : list prefix) (s : rl) : rl :=
-    let addrs := if rl_dirty s then collect_addrs (admit (rl_vpn s)) (rl_cache s) (rl_dns s) (rl_bad s) else rl_addrs s in
+    let addrs := if rl_dirty s then collect_addrs (admission (rl_vpn s)) (rl_cache s) (rl_dns s) (rl_bad s) else rl_addrs s in
     let relays := if rl_dirty s then collect_relays (rl_cache s) else rl_relays s in
     mkRL (rl_vpn s) (rl_cache s) (rl_dns s) (rl_bad s) (sort_addrs pref addrs) (relays_of relays) false.
 
@@ -252,5 +252,5 @@ Section Step.
   Definition copy_relays (pref : list prefix) (s : rl) : list addr := rl_relays (rebuild pref s).
 
   (* the set the property speaks about: learned + reported + admitted resolved, not blocked *)
-  Definition sources (s : rl) : list ap := collect_addrs (admit (rl_vpn s)) (rl_cache s) (rl_dns s) (rl_bad s).
+  Definition sources (s : rl) : list ap := collect_addrs (admission (rl_vpn s)) (rl_cache s) (rl_dns s) (rl_bad s).
 End Step.
